@@ -14,6 +14,10 @@ pub struct Params {
     pub verbose: bool,
     /// cc only: treat the RFC 9002 appendix B.6 send-time rule as binding
     pub strict_appendix_b: bool,
+    /// keys only: steer the workload away from the two known KeySet findings (README)
+    pub avoid_known: bool,
+    /// cc only: configuration probe with an initial congestion window near u32::MAX
+    pub huge_initial_window: bool,
 }
 
 impl Params {
